@@ -5,7 +5,9 @@
 //
 // ops:
 //
-//	new <mtu> <frag> <reasm> <ifi> <cm> <thr> <seq> <nthreads>
+//	new <mtu> <frag> <reasm> <ifi> <cm> <thr> <seq> <nthreads> <sscope> <rscope>
+//	      <sscope>/<rscope>: scope of the sending / receiving face's transport, l = Local, n = NonLocal;
+//	      <mtu> is the MTU the harness CONFIGURES (the SPEC compares frames against this number);
 //	      <nthreads> recording forwarding threads are registered (thread i records index i);
 //	      sender: transport MTU, IsFragmentationEnabled, IsIncomingFaceIndicationEnabled,
 //	      congestion marking on/off with threshold <thr>, nextSequence preset to <seq>;
@@ -198,13 +200,19 @@ func exec(op string) string {
 		w = nil
 		held = nil
 		calls = calls[:0]
-		if len(f) != 9 {
+		if len(f) != 11 {
 			return "bad-op"
 		}
 		setup(common.Atoi(f[8]))
+		scopeOf := func(x string) defn.Scope {
+			if x == "l" {
+				return defn.Local
+			}
+			return defn.NonLocal
+		}
 		nw := &world{frames: map[string][][]byte{}}
-		nw.stx = face.VerifNewTransport(common.Atoi(f[1]), defn.NonLocal)
-		nw.rtx = face.VerifNewTransport(defn.MaxNDNPacketSize, defn.NonLocal)
+		nw.stx = face.VerifNewTransport(common.Atoi(f[1]), scopeOf(f[9]))
+		nw.rtx = face.VerifNewTransport(defn.MaxNDNPacketSize, scopeOf(f[10]))
 		so := face.MakeNDNLPLinkServiceOptions()
 		so.IsFragmentationEnabled = b01(f[2])
 		so.IsIncomingFaceIndicationEnabled = b01(f[4])
@@ -391,7 +399,10 @@ func gen(g *common.Gen) {
 			seq = r.U64()
 		}
 		nth := common.Pick(r, []int{1, 1, 2, 3, 4, 4, 8})
-		g.Op("new %d %d %d %d %d %d %d %d", mtu, frag, reasm, ifi, cm, thr, seq, nth)
+		sscope, rscope := common.Pick(r, []string{"n", "n", "l"}), common.Pick(r, []string{"n", "n", "l"})
+		g.Op("new %d %d %d %d %d %d %d %d %s %s", mtu, frag, reasm, ifi, cm, thr, seq, nth, sscope, rscope)
+		g.Stat("scope-send-" + sscope)
+		g.Stat("scope-recv-" + rscope)
 		g.Stat("threads-" + strconv.Itoa(nth))
 		g.Stat("mtu-" + mtuClass(mtu))
 
